@@ -42,9 +42,10 @@ def conforming(rule):
             st.integers(int(lo * 100), int(hi * 100)).map(lambda n: f"{n / 100:.2f}"),
         )
     if kind == "integer":
-        return st.one_of(st.integers(-5, 500), st.integers()).map(str)
+        # (0 - the one falsy number - often enough to meet every handler of an integer payload)
+        return st.one_of(st.sampled_from([0, 0, 1, -1]), st.integers(-5, 500), st.integers()).map(str)
     if kind == "empty_or_integer":
-        return st.one_of(st.just(""), st.integers(0, 10 ** 10).map(str))
+        return st.one_of(st.just(""), st.sampled_from(["0", "1"]), st.integers(0, 10 ** 10).map(str))
     if kind == "version":
         return st.sampled_from(VERSION_STRINGS)
     if kind == "position":
